@@ -90,7 +90,11 @@ def _no_aliasing(col, rule="C14.R1"):
             q = f"{c.name}.{name}"
             cn = kws.get("col_names")
             data0 = a[2][0] if a[2] else kws.get("data")
-            if _private_helper(name) and any(x is not None and x[:1] == ("param",) for x in (cn, data0)):
+            def _root_param(x):
+                while x is not None and x[:1] in (("attr",), ("sub",), ("item",)):
+                    x = x[1]
+                return x is not None and x[:1] == ("param",)
+            if _private_helper(name) and any(_root_param(x) for x in (cn, data0)):
                 continue    # a private helper that forwards its arguments: judged where it is inlined into its callers
             n += 1
             col.add(rule, f"{q}#fresh-column-list", cn is not None and fresh(cn), sx.loc(ev),
